@@ -88,6 +88,36 @@ func (r *resolver) noteDisabledDef(parent Meta, child Definition, depth int) {
 	}
 }
 
+// copyDisabled carries the notes about left out definitions over to a clone, the
+// content of an augment is resolved in place before it is cloned into its target
+func (r *resolver) copyDisabled(orig Meta, clone Meta) {
+	if len(r.disabled) == 0 {
+		return
+	}
+	for ident := range r.disabled[orig] {
+		r.noteDisabled(clone, ident)
+	}
+	if oc, isChoice := orig.(*Choice); isChoice {
+		if cc, ok := clone.(*Choice); ok {
+			for ident, ocase := range oc.cases {
+				if ccase, found := cc.cases[ident]; found {
+					r.copyDisabled(ocase, ccase)
+				}
+			}
+		}
+		return
+	}
+	oh, origHasDefs := orig.(HasDataDefinitions)
+	ch, cloneHasDefs := clone.(HasDataDefinitions)
+	if origHasDefs && cloneHasDefs {
+		for _, od := range oh.DataDefinitions() {
+			if cd := ch.Definition(od.Ident()); cd != nil {
+				r.copyDisabled(od, cd)
+			}
+		}
+	}
+}
+
 // targetDisabled is true when the schema path leads through a definition that was
 // left out because its if-feature is off
 func (r *resolver) targetDisabled(p Meta, path string) bool {
@@ -883,8 +913,19 @@ func (r *resolver) refine(target Definition, y *Refine) error {
 }
 
 func (r *resolver) expandAugment(y *Augment, parent Meta) error {
-	if on, err := checkFeature(y); !on || err != nil {
+	if on, err := checkFeature(y); err != nil {
 		return err
+	} else if !on {
+		// what the augment would have added counts as left out, for augments aimed at it
+		if target := Find(parent.(HasDataDefinitions), y.ident); target != nil {
+			for _, d := range y.DataDefinitions() {
+				r.noteDisabledDef(target, d, 0)
+			}
+			for ident := range r.disabled[y] {
+				r.noteDisabled(target, ident)
+			}
+		}
+		return nil
 	}
 
 	// RFC7950 Sec 7.17
@@ -907,6 +948,7 @@ func (r *resolver) expandAugment(y *Augment, parent Meta) error {
 	for _, orig := range y.DataDefinitions() {
 		var err error
 		d := orig.(cloneable).clone(target).(Definition)
+		r.copyDisabled(orig, d)
 		if y.when != nil {
 			// the nodes an augment adds are conditional on the augment's when, same as uses
 			if hw, canWhen := d.(HasWhen); canWhen && hw.When() == nil {
